@@ -163,11 +163,9 @@ def round_oracle(mode, files, same, evs, alone):
         if c is not None and c != FILES[n]:
             return "cache event %s for %s carries content that is not the file's" % (w, n)
         per.setdefault(t, []).append(w)
-    for t in range(len(files)):
-        seq = per.get(t, [])
-        ok = seq in (["hit"], ["miss", "read", "insert"]) or (seq == ["miss"] and FILES[files[t]] is None)
-        if not ok:
-            return "thread %d: cache steps %s are not one run of cached_source" % (t, seq)
+    # (whether each thread's cache steps are one run of cached_source - hit | miss, read, insert - is a statement about the
+    #  implementation's structure: it is decided by replaying the trace through the extracted transition system, and a trace that
+    #  does not replay is a broken correspondence, not a wrong report)
     for i, m in enumerate(alone):
         if "assert_struct! failed" not in m or "T%d-first" % i not in m or "T%d-second" % i not in m:
             return "thread %d's report lacks the header or one of its two entries" % i
@@ -389,6 +387,66 @@ def crossdir_stream(res, tier, seed):
                            lambda c, a: c.count("src/lib.rs") >= 2 or c.count("tests/it.rs") >= 2, lambda c, a: problems[c], samples=2)
 
 
+def presence_stream(res, tier, seed):
+    """History over the readability of ONE source file whose content, whenever it can be read, is the same text: the file is there
+    (W), cannot be read (D: moved away mid-rewrite, removed), a failure in it is reported (R; T = on another thread).  `Whatever
+    other assertions failed earlier in the process`: a report made while the file is readable must be the report of the same
+    failure alone (the snippet); a report made while it is not must be the fallback listing or - when an earlier report cached
+    the text - the snippet of that same text.  Both are computed by the same binary from one-step histories."""
+    rng = random.Random(seed * 13 + 2)
+    src = "fn t() {\n    assert_struct!(v, S {\n        a: 1,\n        b: == 2,\n    });\n}\n"
+    q = (4, 11, 4, 15)
+    hists = ["WR", "DR", "DRWR", "DRDRWR", "WRDR", "WRDRWR", "DRWRDR", "DRTWR", "DTRWR", "DTRTWR", "DRWTRWR", "WRWR", "DRWRWR", "DRDRDRWRDRWR"]
+    for _ in range(6 if tier == "quick" else 60):
+        n = rng.randint(3, 9)
+        h, present = "", False
+        for _ in range(n):
+            if rng.random() < 0.45:
+                present = not present
+                h += "W" if present else "D"
+            h += ("T" if rng.random() < 0.25 else "") + "R"
+        hists.append(h)
+    lines = ["fshist\t%s\t%s\t%d\t%d\t%d\t%d" % ((hx(src), h) + q) for h in hists]
+    out = vlib.run_harness("rt", lines, env_extra={"RT_QUIET": "1"})
+    snippet, fallback = out[0].split(" ")[0], out[1].split(" ")[0]
+    if snippet == fallback or "PANIC" in (snippet, fallback):
+        raise vlib.CheckError("presence stream: the one-step baselines are not a snippet and a fallback: %s / %s" % (snippet[:60], fallback[:60]))
+    cases, impl, want, problems = [], [], [], {}
+    for h, line in zip(hists, out):
+        got = line.split(" ") if line else []
+        states, present = [], False
+        for o in h:
+            if o == "W":
+                present = True
+            elif o == "D":
+                present = False
+            elif o == "R":
+                states.append(present)
+        why = None
+        if len(got) != len(states):
+            why = "history %s produced %d reports for %d failures" % (h, len(got), len(states))
+        seen_text = False
+        for i, (g, pres) in enumerate(zip(got, states)):
+            if why:
+                break
+            if g == "PANIC":
+                why = "history %s: formatting report %d panicked" % (h, i + 1)
+            elif pres and g != snippet:
+                why = ("history %s (W = the source file is readable, D = it is not, R = a failure in it is reported, T = on another thread): report %d is made "
+                       "while the file is readable but differs from the report of the same failure alone%s"
+                       % (h, i + 1, " (it is the fallback listing: an earlier failure, made while the file could not be read, is remembered)" if g == fallback else ""))
+            elif not pres and g != fallback and not (seen_text and g == snippet):
+                why = "history %s: report %d, made while the file cannot be read, is neither the fallback listing nor the snippet of the cached text" % (h, i + 1)
+            if pres:
+                seen_text = True
+        cases.append(h)
+        impl.append(",".join("S" if g == snippet else "F" if g == fallback else "?" for g in got))
+        want.append(impl[-1] if why is None else ",".join("S" if p else "F/S" for p in states))
+        problems[h] = why
+    return vlib.correspond(res, "source-file-presence-histories", cases, impl, want, lambda c: c,
+                           lambda c, a: "D" in c and "W" in c, lambda c, a: problems[c], samples=2)
+
+
 # -------------------------------------------------------------------- run ---
 
 def known_corpus():
@@ -496,6 +554,12 @@ def run(res):
     if st2b["disagreements"] == 0 and st2b["oracle_failures"] == 0:
         res.discharged.append(name)
 
+    name = "direct:reports over histories of the source file's readability (unreadable first, readable later, other threads)"
+    res.obligations.append(name)
+    st2c = presence_stream(res, res.tier, res.seed)
+    if st2c["disagreements"] == 0 and st2c["oracle_failures"] == 0:
+        res.discharged.append(name)
+
     # 3. renderer choice and 4. working directory
     name = "correspondence:renderer choice (guard, NO_COLOR, terminal) and working directory"
     res.obligations.append(name)
@@ -534,6 +598,11 @@ def replay(res, path):
     if not ok:
         raise vlib.CheckError("harness rt does not build: " + out[-1500:])
     line = v.get("case_line") or v.get("first_disagreement", {}).get("case_line") or ("guard\t" + v["ops"] if "ops" in v else None)
+    if v.get("stream") == "source-file-presence-histories":
+        st = presence_stream(res, "quick", 1)
+        bad = st["oracle_failures"] or st["disagreements"]
+        print("presence histories re-run:", "violation" if bad else "property holds on these inputs")
+        return 1 if bad else 0
     if v.get("hang"):
         out, hung = vlib.run_harness_or_hang("rt", setup_files(), [line], env_extra={"RT_QUIET": "1"}, timeout=30)
         print("the case", "never finishes (violation)" if hung else "finishes: property holds on this input")
